@@ -454,6 +454,7 @@ func (ep *ExportingProcess) sendRefreshedTemplates() error {
 	for templateID, tempValue := range ep.templatesMap {
 		tempSet, err := entities.MakeTemplateSet(templateID, tempValue.elements)
 		if err != nil {
+			ep.templateMutex.Unlock()
 			return err
 		}
 		templateSets = append(templateSets, tempSet)
